@@ -52,6 +52,9 @@ class HtmlRenderer(BaseRenderer):
         if token.children is not None:
             inner = [self.render_to_plain(child) for child in token.children]
             return ''.join(inner)
+        if isinstance(token, span_token.LineBreak):
+            # (its content is the spelling of the line break: spaces or a backslash)
+            return '\n'
         return html.escape(token.content)
 
     def render_strong(self, token: span_token.Strong) -> str:
